@@ -552,6 +552,13 @@ func (e *c19Env) snapshot() string {
 		if filepath.Dir(rel) == "git-bug" && strings.HasPrefix(d.Name(), "lock") {
 			return nil
 		}
+		// the logical clocks are brought up to date by OpenGoGitRepo, before the cache is opened and its lock
+		// tested: a refused attempt may create missing clocks or complete an interrupted rebuild (marker file).
+		// That is idempotent, only moves clocks up (C05/C06) and is not what the cache lock protects.
+		if rel == filepath.Join("git-bug", "clocks") || filepath.Dir(rel) == filepath.Join("git-bug", "clocks") ||
+			(filepath.Dir(rel) == "git-bug" && strings.HasPrefix(d.Name(), "clocks-") || strings.HasPrefix(d.Name(), ".clocks-")) {
+			return nil
+		}
 		if d.IsDir() {
 			fmt.Fprintf(h, "D %s\n", rel)
 			return nil
